@@ -1,17 +1,196 @@
 /-
 C09 — Key decoding and binding matching are exact and protocol-independent.
-Property theorems only (helper lemmas live in Lemmas/KeyMatch.lean).
+Property theorems only (helper lemmas live in Lemmas/KeyMatch.lean, Lemmas/KeyDecode.lean).
+
+All theorems quantify over every `Uni` (the `unicode` functions are parameters) unless a hypothesis
+on `u` is written out.
 -/
 import VaxisModel.Model.Key
 import VaxisModel.Spec.KeyEnc
+import VaxisModel.Lemmas.KeyMatch
+import VaxisModel.Lemmas.KeyDecode
 
 namespace VaxisModel.Props.C09
 open VaxisModel.Model.Key VaxisModel.Spec.KeyEnc VaxisModel.Gen.Keys
+open VaxisModel.Lemmas.KeyMatch VaxisModel.Lemmas.KeyDecode
 
-/-- The table in key.go denotes exactly the keys the protocol documents say (both directions). -/
+/-! ## Tables regenerated from key.go agree with the protocol documents -/
+
+/-- `specialsKeys` denotes exactly the keys the protocol documents say (both directions). -/
 theorem specials_is_spec :
     (specialsKeys.all fun e => lookup2 e.1 functional = some e.2) = true ∧
     (functional.all fun e => lookup2 e.1 specialsKeys = some e.2) = true := by
   constructor <;> decide +kernel
+
+/-- The SS3 arm of `decodeKey` is the xterm application-cursor / PF-key table. -/
+theorem ss3_is_spec : ss3Keys = ss3Table := by decide
+
+/-- The modifier bits are the kitty keyboard protocol's. -/
+theorem mod_bits :
+    ModShift = shiftBit ∧ ModAlt = altBit ∧ ModCtrl = ctrlBit ∧ ModSuper = superBit ∧
+    ModHyper = hyperBit ∧ ModMeta = metaBit ∧ ModCapsLock = capsBit ∧ ModNumLock = numBit := by decide
+
+/-! ## Matching -/
+
+/-- Meaning of the bit-clear primitive (`&^`) used by model and spec. -/
+theorem andNot_testBit (a b i : Nat) : (andNot a b).testBit i = (a.testBit i && !b.testBit i) :=
+  testBit_andNot a b i
+
+/-- **shift_forgiveness.** `Matches` returns true exactly in the six documented situations; in
+    particular Shift is forgiven only by rules 3, 5 and 6 of `matchSpec`. For all keys, runes, masks
+    (of any width) and all `unicode` tables. -/
+theorem shift_forgiveness (u : Uni) (k : Key) (key : Int) (m : Nat) :
+    «matches» u k key m = true ↔ matchSpec u k key m := matches_iff u k key m
+
+/-- **match_strong_mods.** A binding matches only if Ctrl, Alt, Super, Hyper and Meta are identical
+    in the event and in the binding. -/
+theorem match_strong_mods (u : Uni) (k : Key) (key : Int) (m : Nat)
+    (h : «matches» u k key m = true) : strong k.mods = strong m := by
+  have hc := matchSpec_core ((matches_iff u k key m).mp h)
+  have := congrArg strong hc
+  rwa [strong_andNot _ _ (by decide), strong_andNot _ _ (by decide)] at this
+
+/-- Stronger form: every bit other than Shift, Caps Lock and Num Lock (including bits beyond the
+    eight defined ones) is identical. -/
+theorem match_all_but_shift_and_locks (u : Uni) (k : Key) (key : Int) (m : Nat)
+    (h : «matches» u k key m = true) (i : Nat) (hi : i ≠ 0 ∧ i ≠ 6 ∧ i ≠ 7) :
+    k.mods.testBit i = m.testBit i := by
+  have hc := matchSpec_core ((matches_iff u k key m).mp h)
+  have := congrArg (·.testBit i) hc
+  simp only [testBit_andNot] at this
+  have hw : weakMask.testBit i = false := by
+    obtain ⟨h0, h6, h7⟩ := hi
+    by_cases h8 : i < 8
+    · have : i = 1 ∨ i = 2 ∨ i = 3 ∨ i = 4 ∨ i = 5 := by omega
+      rcases this with rfl | rfl | rfl | rfl | rfl <;> decide
+    · exact Nat.testBit_lt_two_pow (Nat.lt_of_lt_of_le (by decide : weakMask < 2 ^ 8)
+        (Nat.pow_le_pow_right (by decide) (by omega)))
+  simpa [hw] using this
+
+example : «matches» ⟨fun _ => false, fun _ => false, fun _ => false, fun _ => false, fun _ => false, id, id, fun _ _ => false⟩
+    { keycode := 97, mods := ModCtrl ||| ModCapsLock } 97 ModCtrl = true := by decide
+
+/-- **locks_irrelevant.** Toggling Caps Lock and/or Num Lock, in the event or in the binding, never
+    changes the result of `Matches`. -/
+theorem locks_irrelevant (u : Uni) (k : Key) (key : Int) (m l : Nat)
+    (hl : andNot l (capsBit ||| numBit) = 0) :
+    «matches» u { k with mods := k.mods ^^^ l } key m = «matches» u k key m ∧
+    «matches» u k key (m ^^^ l) = «matches» u k key m := by
+  constructor
+  · rw [Bool.eq_iff_iff, matches_iff, matches_iff]
+    exact matchSpec_congr u k _ key m m rfl (strip_xor_locks _ _ hl) rfl
+  · rw [Bool.eq_iff_iff, matches_iff, matches_iff]
+    exact matchSpec_congr u k k key m _ rfl rfl (strip_xor_locks _ _ hl)
+
+example : andNot (capsBit ||| numBit) (capsBit ||| numBit) = 0 ∧ andNot capsBit (capsBit ||| numBit) = 0 := by decide
+
+/-! ## Decoding -/
+
+/-- **decode_exact_print.** A printable character (legacy byte or paste): lower-case/other characters
+    are themselves; an upper-case letter is Shift + its lower-case; DEL is BackSpace. -/
+theorem decode_exact_print (u : Uni) (g : Str) (hg : g ≠ [])
+    (h127 : u.isUpper (g.headD 0) = true → u.toLower (g.headD 0) ≠ 127) :
+    decodeKey u (.print g) = printExpected u g := by
+  have hraw : decodeRaw u (.print g) = printExpected u g := by
+    dsimp only [decodeRaw, printExpected]
+    generalize g.headD 0 = ch at h127 ⊢
+    by_cases hu : u.isUpper ch = true
+    · have := h127 hu
+      simp [hu, KeyBackspace, this, ModShift, shiftBit]
+    · by_cases hd : ch = 127
+      · subst hd; simp [hu, KeyBackspace]
+      · simp [hu, hd, KeyBackspace]
+  rw [decodeKey_eq, hraw]
+  apply shiftFix_id
+  dsimp only [printExpected]
+  generalize g.headD 0 = ch
+  by_cases hu : u.isUpper ch = true
+  · left; simp [hu, hg]
+  · by_cases hd : ch = 127
+    · right; subst hd; simp [hu, stripLocks, andNot, shiftBit]
+    · left; simp [hu, hd, hg]
+
+/-- **decode_exact_c0.** Every C0 byte: BS/HT/CR/ESC are keys, the others are Ctrl chords. -/
+theorem decode_exact_c0 (u : Uni) (b : Int) (h0 : 0 ≤ b) (h1 : b < 32) :
+    decodeKey u (.c0 b) = c0Expected b := by
+  obtain ⟨n, rfl⟩ : ∃ n : Nat, b = n := ⟨b.toNat, by omega⟩
+  have hn : n < 32 := by omega
+  have := c0Raw_table ⟨n, hn⟩
+  rw [decodeKey_eq, decodeRaw_c0, shiftFix_id _ _ (Or.inr this.2)]
+  exact this.1
+
+/-- **decode_exact_esc.** ESC-prefixed character: Alt + that character (any final); upper-case
+    letters are Alt + Shift + the lower-case letter. -/
+theorem decode_exact_esc (u : Uni) (final : Int) : decodeKey u (.esc final) = escExpected u final := by
+  rw [decodeKey_eq]
+  have hraw : decodeRaw u (.esc final) = escExpected u final := by
+    dsimp only [decodeRaw, escExpected]
+    split <;> rfl
+  rw [hraw]
+  apply shiftFix_id; right
+  unfold escExpected
+  split
+  · show stripLocks (altBit ||| shiftBit) ≠ shiftBit; decide
+  · show stripLocks altBit ≠ shiftBit; decide
+
+/-- **decode_exact_ss3.** Every SS3 final of the xterm table denotes its key, unmodified. -/
+theorem decode_exact_ss3 (u : Uni) :
+    ∀ e ∈ ss3Table, decodeKey u (.ss3 e.1) = { keycode := e.2 } := by
+  intro e he
+  rw [decodeKey_eq]
+  have h : ss3Raw e.1 = { keycode := e.2 } := by
+    revert e; decide
+  rw [decodeRaw_ss3, h]
+  exact shiftFix_id _ _ (Or.inr (show stripLocks 0 ≠ shiftBit by decide))
+
+/-- **decode_exact_csi.** Every CSI key report — xterm `CSI 1;m X`, `CSI n;m ~`, kitty `CSI … u` —
+    with any combination of the optional fields (shifted code, base-layout code, modifiers, event type,
+    text) is decoded to exactly the key, codes, modifier mask, event type and text it carries, plus the
+    documented Shift-text work-around.  `number`/`final` denote a functional key of the protocol table
+    or (`final = u`, not in the table) the code point of the key itself; all 256 masks (indeed any
+    mask), any event value, any text of valid code points. -/
+theorem decode_exact_csi (u : Uni) (num fin : Int) (c : Chord) (f : Form)
+    (hnum : inRune num) (hsh : inRune c.shifted) (hbase : inRune c.base)
+    (htext : ∀ p ∈ c.text, inRune p ∧ validRune p = true)
+    (hkey : lookup2 (num, fin) functional = some c.key ∨ (lookup2 (num, fin) functional = none ∧ c.key = num))
+    (hZ : ¬(num = 1 ∧ fin = 90)) (hmok : ¬(c.key = 27 ∧ fin = 126)) :
+    decodeKey u (kittySeq num fin c f) = kittyExpected u c f := by
+  rw [decodeKey_eq, decodeRaw_csi u num fin c f hnum hsh hbase htext ?_ hZ hmok]
+  · rfl
+  · rw [lookup2_tables_agree specials_is_spec.1 specials_is_spec.2]; exact hkey
+
+example : decodeKey ⟨fun _ => false, fun _ => false, fun _ => false, fun _ => false, fun r => decide (32 ≤ r), (· - 32), id, fun _ _ => false⟩
+    (kittySeq 97 117 { key := 97, mods := 1 } { withMods := true }) = { keycode := 97, mods := 1, text := [65] } := by decide
+
+/-- A parameterless `CSI X` is `CSI 1 X`. -/
+theorem decode_exact_csi_noparams (u : Uni) (fin key : Int)
+    (hkey : lookup2 (1, fin) functional = some key) (hZ : fin ≠ 90) :
+    decodeKey u (.csi [] fin) = shiftFix u { keycode := key } := by
+  have i0 : inRune 0 := ⟨by decide, by decide⟩
+  have h := decode_exact_csi u 1 fin { key := key } {} ⟨by decide, by decide⟩ i0 i0
+    (by simp) (Or.inl hkey) (by simp [hZ]) ?_
+  · have e : decodeRaw u (.csi [] fin) = decodeRaw u (kittySeq 1 fin { key := key } {}) := rfl
+    rw [decodeKey_eq, e, ← decodeKey_eq, h]; rfl
+  · intro h
+    have h2 : fin = 126 := h.2
+    subst h2
+    have : lookup2 (1, 126) functional = some KeyHome := by decide
+    rw [this] at hkey
+    have h1 : key = 27 := h.1
+    subst h1
+    revert hkey; decide
+
+/-- `CSI Z` is Shift+Tab. -/
+theorem decode_exact_shift_tab (u : Uni) :
+    decodeKey u (.csi [] 90) = shiftFix u { keycode := KeyTab, mods := shiftBit } := rfl
+
+/-- xterm's `CSI 27 ; m ; code ~` (modifyOtherKeys) is `code` with modifiers `m - 1`. -/
+theorem decode_exact_modify_other_keys (u : Uni) (m : Nat) (code : Int) (hc : inRune code) :
+    decodeKey u (.csi [[27], [(m : Int) + 1], [code]] 126) = shiftFix u { keycode := code, mods := m } := by
+  rw [decodeKey_eq]
+  simp [decodeRaw, csiParams, csiCodes, csiMods, toRune_id code hc.1 hc.2]
+  have : lookup2 (27, 126) specialsKeys = none := by decide
+  have h27 : toRune 27 = 27 := by decide
+  simp [this, h27]
 
 end VaxisModel.Props.C09
